@@ -8,3 +8,16 @@ open Just.Props.C02
 #print axioms fallible_stops
 #print axioms unconfirmed_runs_nothing
 #print axioms yes_never_prompts
+#print axioms EndsFailed.prepend
+#print axioms StopsAt.prepend
+#print axioms stopsAt_last
+#print axioms evalA_stops
+#print axioms evalList_stops
+#print axioms bindParams_stops
+#print axioms runCmd_stops
+#print axioms runLines_stops
+#print axioms evalLines_stops
+#print axioms runBody_stops
+#print axioms failstop_all
+#print axioms runAssigns_stops
+#print axioms runInvs_stops
